@@ -44,7 +44,9 @@ def _obj(a):
 
 def _unwrap0(r):
     if isinstance(r, _np.ndarray) and r.ndim == 0 and r.dtype == object:
-        return r[()]
+        r = r[()]
+    if type(r) is builtins.float:
+        return _np.float64(r)       # concrete scalar results keep NumPy's scalar type (methods such as .copy())
     return r
 
 
